@@ -50,7 +50,7 @@ var rvSpellings = map[string][]string{
 	"srv_5fields": {"1 2 3 srv.test extra"}, "srv_over_prio": {"65536 2 3 srv.test"}, "srv_over_weight": {"1 65536 3 srv.test"},
 	"srv_over_port": {"1 2 65536 srv.test"}, "srv_nan": {"a 2 3 srv.test", "1 b 3 srv.test", "1 2 c srv.test", "1 2 -3 srv.test"},
 	"srv_badhost": {"1 2 3 -bad", "1 2 3 a..b"},
-	"svcb_ok":     {"1 svc.test", "65535 s.test"}, "svcb_dot": {"1 .", "0 ."}, "svcb_params": {"1 . alpn=h3", "1 svc.test alpn=h2 port=8443", "1 . dohpath=/dns-query{?dns}"},
+	"svcb_ok":     {"1 svc.test", "65535 s.test"}, "svcb_dot": {"1 .", "0 ."}, "svcb_params": {"1 . alpn=h3", "1 svc.test alpn=h2 port=8443", "1 . dohpath=/dns-query{?dns}", "1 . ALPN=h2 alpn=h3", "1 . alpn=h2 alpn=h3 Port=1 port=2 PORT=3"},
 	"svcb_1field": {"1", "svc.test"}, "svcb_nan": {"x svc.test", "-1 svc.test"}, "svcb_over": {"65536 svc.test"},
 	"svcb_badhost": {"1 -bad", "1 a..b"}, "svcb_badparam": {"1 . alpn", "1 svc.test noequals"}, "svcb_3eq": {"1 . a=b=c"},
 }
@@ -169,6 +169,12 @@ func cmdReplayRwValue(args []string) error {
 			ok, sh, raw, pv := parseRewrite(t)
 			ok2, sh2, raw2, _ := parseRewrite(t)
 			det := ok == ok2 && sh == sh2 && reflect.DeepEqual(raw, raw2)
+			// a value with parameters is parsed a few more times: what is kept of keys given twice, or in two spellings,
+			// must not be left to chance
+			for k := 0; det && k < 10 && strings.Contains(t, "="); k++ {
+				okN, shN, rawN, _ := parseRewrite(t)
+				det = ok == okN && sh == shN && reflect.DeepEqual(raw, rawN)
+			}
 			if ok {
 				accepted++
 			}
